@@ -10,6 +10,7 @@ __attribute__((noinline)) const char* w_session_line(int i) { return script_line
 __attribute__((noinline)) int w_session_seq() { return env ? env->curr_op_seq : -1; }
 __attribute__((noinline)) int w_session_step() { return instance.step() ? 1 : 0; }
 __attribute__((noinline)) int w_session_done() { return env->done ? 1 : 0; }
+__attribute__((noinline)) int w_session_rewind() { return instance.rewind() ? 1 : 0; }
 // everything the listing/marker check needs: what the next step will execute (from the session state) and the listing as built by main()
 __attribute__((noinline)) unsigned w_session_dump(unsigned char* out) {
     unsigned char* p = out;
